@@ -1,0 +1,8 @@
+//go:build !verif
+// +build !verif
+
+package pegnet
+
+import "database/sql"
+
+func verifWrapDB(db *sql.DB, dsn string) *sql.DB { return db }
